@@ -51,3 +51,19 @@ Theorem c09_onclose_once : forall cf pl ins,
              /\ (c_phase (fst (conn_run cf pl cinit ins)) = PDone -> snd m' <> 1).
 Proof. exact callbacks_wellformed. Qed.
 Print Assumptions c09_onclose_once.
+
+(* the connection ends in the middle of a message (header complete, body not): after the complete messages before it the
+   reader reports a plain I/O error — no phantom message is decoded, no NOTIFICATION-carrying error arises — and the state
+   machine ends silently (c09_tcp_failure_silent) *)
+From Verif Require Import ReaderProofs.
+Theorem c09_eof_mid_message : forall l ms part,
+  Forall2 good_msg l ms -> read_one part = RWait ->
+  read_stream (frames l ++ part) true = map RMsg ms ++ [RErrIO].
+Proof. exact eof_mid_message. Qed.
+Print Assumptions c09_eof_mid_message.
+
+Theorem c09_incomplete_is_waiting : forall l1 l0 t rest,
+  let len := l1 * 256 + l0 in
+  19 <= len <= 4096 -> 19 + blen rest < len -> read_one (marker ++ l1 :: l0 :: t :: rest) = RWait.
+Proof. exact read_one_incomplete. Qed.
+Print Assumptions c09_incomplete_is_waiting.
